@@ -11,7 +11,7 @@ RULE = ("after a valid handshake: ALL byte strings of length <= 4 (quick) / 5 (t
         "reply or an error return -- never a panic or a hang; non-trivial = not a fully valid conversation; distinct = distinct case text")
 ASSUMPTIONS = ["shim callbacks return", "known findings (listed in known_findings.json) are reported, not raised"]
 
-KNOWN_PANIC_KEYS = {"panic FragSeq": "panic:FragSeq", "panic ParamsSplit": "panic:ParamsSplit", "panic ParamsBadType": "panic:ParamsBadType",
+KNOWN_PANIC_KEYS = {"panic ParamsSplit": "panic:ParamsSplit", "panic ParamsBadType": "panic:ParamsBadType",
                     "panic ParamsBoundIndex": "panic:ParamsBoundIndex", "panic ParamsValue": "panic:ParamsValue"}
 
 
